@@ -14,6 +14,7 @@ import FuraxModel.Index
 import FuraxModel.Einsum
 import FuraxModel.Diagonal
 import FuraxModel.StokesArith
+import FuraxModel.Acquisition
 namespace Furax
 open SExp
 
@@ -270,10 +271,26 @@ def handleStokesArith (cmd : String) (args : List SExp) : Option SExp :=
     some (list [atom "ok", ofRat (StokesArith.dot xs ys)])
   | _, _ => none
 
+/-- `(rotmat c1 s1 c2 s2 c3 s3)` → the 9 entries; `(rotate c1 s1 c2 s2 c3 s3 (x y z))`;
+`(acquire KIND c s (sky…))` → the detector value of the reduced SAT chain -/
+def handleAcquisition (cmd : String) (args : List SExp) : Option SExp :=
+  match cmd, args with
+  | "rotmat", [a, b, c, d, e, f] => do
+    let m := Acquisition.rotationMatrix (← a.rat?) (← b.rat?) (← c.rat?) (← d.rat?) (← e.rat?) (← f.rat?)
+    some (list [atom "ok", ofRats m.flatten])
+  | "rotate", [a, b, c, d, e, f, v] => do
+    let r := Acquisition.rotate (← a.rat?) (← b.rat?) (← c.rat?) (← d.rat?) (← e.rat?) (← f.rat?) (← v.rats?)
+    some (list [atom "ok", ofRats r])
+  | "acquire", [atom k, c, s, xs] => do
+    let kind ← StokesKind.ofName? k
+    let sky := SV.ofPresent kind (← xs.rats?) (0 : Rat)
+    some (list [atom "ok", ofRat (Acquisition.acquire (1/2 : Rat) kind (← c.rat?) (← s.rat?) sky)])
+  | _, _ => none
+
 def handle (line : String) : String :=
   match SExp.parse line with
   | some (list (atom cmd :: args)) =>
-    match ((handleLevelA cmd args).orElse (fun _ => handleStokes cmd args)).orElse (fun _ => handleToeplitz cmd args) |>.orElse (fun _ => handleAxes cmd args) |>.orElse (fun _ => handleLandscape cmd args) |>.orElse (fun _ => handleConfig cmd args) |>.orElse (fun _ => handleIndex cmd args) |>.orElse (fun _ => handleEinsum cmd args) |>.orElse (fun _ => handleDiagonal cmd args) |>.orElse (fun _ => handleStokesArith cmd args) with
+    match ((handleLevelA cmd args).orElse (fun _ => handleStokes cmd args)).orElse (fun _ => handleToeplitz cmd args) |>.orElse (fun _ => handleAxes cmd args) |>.orElse (fun _ => handleLandscape cmd args) |>.orElse (fun _ => handleConfig cmd args) |>.orElse (fun _ => handleIndex cmd args) |>.orElse (fun _ => handleEinsum cmd args) |>.orElse (fun _ => handleDiagonal cmd args) |>.orElse (fun _ => handleStokesArith cmd args) |>.orElse (fun _ => handleAcquisition cmd args) with
     | some r => r.toStr
     | none => "(bad-request)"
   | _ => "(bad-request)"
